@@ -45,7 +45,7 @@ class Contract:
         self.opens = ""  # text inserted at the very start of the body
 
 
-_dir_re = re.compile(r"^(fn|requires|ensures|decreases|ret|loop|before|after|attr|body|backed_by|open)\b(.*)$")
+_dir_re = re.compile(r"^(fn|trait|impl|items|requires|ensures|decreases|ret|loop|before|after|inline|attr|body|backed_by|open)\b(.*)$")
 
 
 def parse_overlay(path):
@@ -60,16 +60,20 @@ def parse_overlay(path):
         if line[:1] not in (" ", "\t", "") and _dir_re.match(line):
             m = _dir_re.match(line)
             d, rest = m.group(1), m.group(2).strip()
-            if d == "fn":
-                cur = Contract(rest, os.path.relpath(path, VERIF), ln)
-                if rest in out:
-                    raise Undecided("duplicate contract for %s" % rest)
-                out[rest] = cur
+            if d in ("fn", "trait", "impl"):
+                # `trait <file>::<Name>` / `impl <file>::<header>`: ghost items (spec fns) added to a kept trait / trait impl
+                key = rest if d == "fn" else d + " " + rest
+                cur = Contract(key, os.path.relpath(path, VERIF), ln)
+                if key in out:
+                    raise Undecided("duplicate contract for %s" % key)
+                out[key] = cur
                 field = None
                 continue
             if cur is None:
                 raise Undecided("%s:%d: directive outside fn" % (path, ln))
-            rest = rest.rstrip(":").strip() if d not in ("before", "after") else rest
+            rest = rest.rstrip(":").strip() if d not in ("before", "after", "inline") else rest
+            if d == "items":
+                d = "open"
             if d in ("requires", "ensures", "decreases", "open"):
                 field = (d,)
                 if rest:
@@ -88,6 +92,13 @@ def parse_overlay(path):
                     raise Undecided("%s:%d: bad anchor %r" % (path, ln, rest))
                 cur.inserts.append([d, m2.group(1), int(m2.group(2) or 1), ""])
                 field = ("ins", len(cur.inserts) - 1)
+            elif d == "inline":
+                # `inline /regex/ #k: text` -- text inserted immediately after the k-th match (same line)
+                m2 = re.match(r"^/(.*)/\s*(?:#(\d+))?\s*:(.*)$", rest)
+                if not m2:
+                    raise Undecided("%s:%d: bad inline anchor %r" % (path, ln, rest))
+                cur.inserts.append(["inline", m2.group(1), int(m2.group(2) or 1), m2.group(3).strip()])
+                field = None
             elif d == "attr":
                 cur.attrs.append(rest.lstrip(":").strip())
                 field = None
@@ -430,6 +441,215 @@ def strip_inner_use(text, counts):
     return _use_stmt_re.sub(f, text)
 
 
+
+# ----------------------------------------------------------------------------------------------
+# R8..R11: closures and iterator adapters (datetime/find.rs)
+# ----------------------------------------------------------------------------------------------
+
+def _find_stmt_end(toks, i):
+    """index of the `;` ending the statement that starts at toks[i] (top level of its block)"""
+    j = i
+    while j < len(toks):
+        if toks[j].text in rl.OPEN:
+            j = rl.match_close(toks, j)
+        elif toks[j].text == ";":
+            return j
+        j += 1
+    raise Undecided("statement end not found")
+
+
+def rewrite_R8(text, key, specs, counts):
+    """lambda lifting of a closure that captures a variable mutably (Verus has no FnMut with mutable captures):
+    `let mut NAME = |PARAMS| -> RET { BODY };` is removed from the function and re-emitted as a separate function
+    `<fn>__NAME(CAPTURES.., PARAMS) -> RET { BODY }`; every call `NAME(args)` becomes `<fn>__NAME(captures.., args)`;
+    a capture marked "deref" is passed as `&mut x` and each use of `x` in BODY becomes `(*x)`.  The capture list and the
+    return type come from contracts/extract.json (rustc re-checks them: a wrong list does not compile -> UNDECIDED).
+    Returns (new_text, [lifted function texts])."""
+    lifted = []
+    for sp in specs:
+        name = sp["name"]
+        toks = rl.sig(rl.lex(text))
+        at = None
+        for i, t in enumerate(toks):
+            if t.text == "let" and toks[i + 1].text == "mut" and toks[i + 2].text == name and toks[i + 3].text == "=" and toks[i + 4].text == "|":
+                at = i
+                break
+        if at is None:
+            raise Undecided("%s: closure %s not found (lost anchor)" % (key, name))
+        j = at + 5
+        while toks[j].text != "|":
+            j += 1
+        params = text[toks[at + 4].end:toks[j].pos].strip()
+        k = j + 1
+        while toks[k].text != "{":
+            k += 1
+        bclose = rl.match_close(toks, k)
+        if toks[bclose + 1].text != ";":
+            raise Undecided("%s: closure %s has an unexpected shape" % (key, name))
+        body = text[toks[k].pos:toks[bclose].end]
+        stmt_lo = text.rfind("\n", 0, toks[at].pos) + 1
+        stmt_hi = toks[bclose + 1].end
+        fname = "%s__%s" % (key.split("::")[-1], name)
+        # the lifted body: mutable captures are dereferenced
+        btoks = rl.sig(rl.lex(body))
+        out, last = [], 0
+        for t in btoks:
+            for cap in sp["captures"]:
+                if cap.get("deref") and t.kind == rl.IDENT and t.text == cap["name"]:
+                    out.append(body[last:t.pos])
+                    out.append(_rw("R8", t.text, "(*%s)" % t.text))
+                    last = t.end
+        out.append(body[last:])
+        sig = "fn %s(%s, %s) -> %s " % (fname, ", ".join("%s: %s" % (c["name"], c["type"]) for c in sp["captures"]), params, sp["ret"])
+        lifted.append(dict(name=name, fname=fname, text=_rw("R8", "", sig) + "".join(out), closure_body=body))
+        removed = text[stmt_lo:stmt_hi]
+        text = text[:stmt_lo] + _rw("R8", removed, "") + text[stmt_hi:]
+        # calls
+        call_args = ", ".join(c["pass"] for c in sp["captures"])
+        toks = rl.sig(rl.lex(text))
+        edits = []
+        for i, t in enumerate(toks):
+            if t.kind == rl.IDENT and t.text == name and toks[i + 1].text == "(" and toks[i - 1].text not in (".", "fn", "mut"):
+                edits.append((t.pos, toks[i + 1].end, _rw("R8", text[t.pos:toks[i + 1].end], "%s(%s, " % (fname, call_args))))
+        if not edits:
+            raise Undecided("%s: closure %s is never called" % (key, name))
+        for lo, hi, new in sorted(edits, reverse=True):
+            text = text[:lo] + new + text[hi:]
+        counts["R8"] = counts.get("R8", 0) + 1
+    return text, lifted
+
+
+def rewrite_R9(text, key, counts):
+    """`for (I, X) in S.iter().enumerate() {B}` -> `let mut I = 0; while I < S.len() { let X = &S[I]; B I += 1; }`
+    (B must not contain `continue`)."""
+    while True:
+        toks = rl.sig(rl.lex(text))
+        hit = None
+        for i, t in enumerate(toks):
+            if t.text != "for" or toks[i + 1].text != "(":
+                continue
+            pc = rl.match_close(toks, i + 1)
+            pat = [x.text for x in toks[i + 2:pc]]
+            if len(pat) != 3 or pat[1] != "," or toks[pc + 1].text != "in":
+                continue
+            j = pc + 2
+            while toks[j].text != "{":
+                if toks[j].text in ("(", "["):
+                    j = rl.match_close(toks, j)
+                j += 1
+            tail = [x.text for x in toks[j - 8:j]]
+            if tail != [".", "iter", "(", ")", ".", "enumerate", "(", ")"]:
+                continue
+            hit = (i, pc, j, pat[0], pat[2])
+            break
+        if hit is None:
+            return text
+        i, pc, j, I, X = hit
+        S = text[toks[pc + 2].pos:toks[j - 9].end]
+        bc = rl.match_close(toks, j)
+        if any(x.text == "continue" for x in toks[j:bc]):
+            raise Undecided("%s: `continue` inside an enumerate loop (R9 does not apply)" % key)
+        head = _rw("R9", text[toks[i].pos:toks[j - 1].end], "let mut %s = 0; while %s < %s.len()" % (I, I, S))
+        first = _rw("R9", "", " let %s = &%s[%s];" % (X, S, I))
+        last = _rw("R9", "", "%s += 1; " % I)
+        text = text[:toks[i].pos] + head + text[toks[j - 1].end:toks[j].end] + first + text[toks[j].end:toks[bc].pos] + last + text[toks[bc].pos:]
+        counts["R9"] = counts.get("R9", 0) + 1
+
+
+def rewrite_R10(text, key, specs, counts):
+    """an iterator-adapter expression / statement is replaced by a call to a helper whose contract is assumed in Verus and
+    proved for the ORIGINAL expression by the named Kani harness (complete: fixed-size arrays of machine integers)."""
+    for sp in specs:
+        n = text.count(sp["orig"])
+        if n != 1:
+            raise Undecided("%s: expression %r occurs %d times (lost anchor)" % (key, sp["orig"][:40], n))
+        text = text.replace(sp["orig"], _rw("R10", sp["orig"], sp["new"]))
+        counts["R10"] = counts.get("R10", 0) + 1
+    return text
+
+
+def rewrite_R12(text, key, receivers, counts):
+    """A-normal form for the argument of a push: the statement `X.push(E);` becomes `let pushed_value = E; X.push(pushed_value);`
+    (same evaluation order: X is a plain variable; E is evaluated before the call either way) so that ghost code can name E."""
+    for recv in receivers:
+        while True:
+            toks = rl.sig(rl.lex(text))
+            hit = None
+            rt = [t.text for t in rl.sig(rl.lex(recv))]
+            for i in range(len(toks) - len(rt) - 1):
+                if [t.text for t in toks[i:i + len(rt)]] == rt and toks[i + len(rt)].text == "(" and toks[i - 1].text in (";", "{", "}"):
+                    pc = rl.match_close(toks, i + len(rt))
+                    if toks[pc + 1].text != ";":
+                        continue
+                    arg = text[toks[i + len(rt)].end:toks[pc].pos]
+                    if arg.strip() == "pushed_value":
+                        continue
+                    hit = (i, pc, arg)
+                    break
+            if hit is None:
+                break
+            i, pc, arg = hit
+            new = "let pushed_value = %s;\n%s%s(pushed_value)" % (arg, _line_indent(text, toks[i].pos), recv)
+            text = text[:toks[i].pos] + _rw("R12", text[toks[i].pos:toks[pc].end], new) + text[toks[pc].end:]
+            counts["R12"] = counts.get("R12", 0) + 1
+    return text
+
+
+def rewrite_R11(text, key, counts):
+    """`let IT = A.iter().copied().zip(B.iter().copied());` ... `for (P, &(&Q1, .., Qn)) in IT {BODY}` ->
+    `let mut zip_i = 0; while zip_i < A.len() && zip_i < B.len() { let P = A[zip_i]; let zip_e = B[zip_i]; let Q1 = *zip_e.0; ..; BODY zip_i += 1; }`"""
+    toks = rl.sig(rl.lex(text))
+    for i, t in enumerate(toks):
+        if t.text != "let" or toks[i + 2].text != "=":
+            continue
+        e = _find_stmt_end(toks, i)
+        tx = [x.text for x in toks[i + 3:e]]
+        mid = [".", "iter", "(", ")", ".", "copied", "(", ")", ".", "zip", "("]
+        suf = [".", "iter", "(", ")", ".", "copied", "(", ")", ")"]
+        if len(tx) != 2 + len(mid) + len(suf) or tx[1:1 + len(mid)] != mid or tx[2 + len(mid):] != suf:
+            continue
+        IT, A, B = toks[i + 1].text, tx[0], tx[1 + len(mid)]
+        # the loop
+        for q in range(e, len(toks)):
+            if toks[q].text == "for" and toks[q + 1].text == "(":
+                pc = rl.match_close(toks, q + 1)
+                if [x.text for x in toks[pc + 1:pc + 4]] == ["in", IT, "{"]:
+                    break
+        else:
+            raise Undecided("%s: zip iterator %s is not consumed by a for loop" % (key, IT))
+        pat = toks[q + 2:pc]
+        P = pat[0].text
+        if pat[1].text != "," or pat[2].text != "&" or pat[3].text != "(" or pat[-1].text != ")":
+            raise Undecided("%s: unexpected zip loop pattern" % key)
+        comps, cur = [], []
+        for x in pat[4:-1]:
+            if x.text == ",":
+                comps.append(cur)
+                cur = []
+            else:
+                cur.append(x.text)
+        if cur:
+            comps.append(cur)
+        binds = " let %s = %s[zip_i]; let zip_e = %s[zip_i];" % (P, A, B)
+        for n, c in enumerate(comps):
+            if len(c) == 2 and c[0] == "&":
+                binds += " let %s = *zip_e.%d;" % (c[1], n)
+            elif len(c) == 1:
+                binds += " let %s = zip_e.%d;" % (c[0], n)
+            else:
+                raise Undecided("%s: unexpected zip loop pattern component" % key)
+        ob = pc + 3
+        bc = rl.match_close(toks, ob)
+        if any(x.text == "continue" for x in toks[ob:bc]):
+            raise Undecided("%s: `continue` inside the zip loop (R11 does not apply)" % key)
+        s_lo = text.rfind("\n", 0, toks[i].pos) + 1
+        head = _rw("R11", text[toks[q].pos:toks[ob - 1].end], "let mut zip_i = 0; while zip_i < %s.len() && zip_i < %s.len()" % (A, B))
+        out = (text[:s_lo] + _rw("R11", text[s_lo:toks[e].end], "") + text[toks[e].end:toks[q].pos] + head + text[toks[ob - 1].end:toks[ob].end]
+               + _rw("R11", "", binds) + text[toks[ob].end:toks[bc].pos] + _rw("R11", "", "zip_i += 1; ") + text[toks[bc].pos:])
+        counts["R11"] = counts.get("R11", 0) + 1
+        return out
+    return text
+
 # ----------------------------------------------------------------------------------------------
 # R5: splice contracts into a function
 # ----------------------------------------------------------------------------------------------
@@ -473,6 +693,10 @@ def splice(fn_text, c, key, counts):
         if len(ms) < occ:
             raise Undecided("%s: anchor /%s/ #%d not found (lost anchor)" % (key, rx, occ))
         m = ms[occ - 1]
+        if mode == "inline":
+            edits.append((body_lo + m.end(), ins(" " + text + " ")))
+            counts["R5.ghost"] = counts.get("R5.ghost", 0) + 1
+            continue
         if mode == "before":
             p = body.rfind("\n", 0, m.start()) + 1
         else:
@@ -563,6 +787,8 @@ class Extraction:
         self.types = []  # [(file, text)]
         self.order = []  # output order of chunks: ("type"/"const"/"fn"/"impl_open"/"impl_close", payload)
         self.dropped = []
+        self.lifted_after = {}
+        self.trait_methods = {}
         self.used_contracts = set()
         self._extract()
 
@@ -592,11 +818,29 @@ class Extraction:
             c["R6.cfg_test"] = c.get("R6.cfg_test", 0) + 1
             return
         qual = (impl.self_type + "::" if impl else "") + it.name
+        keyq = qual
+        if impl is not None and impl.trait_impl:
+            # key: the full impl header; qual: the name Verus reports (Self type :: method)
+            keyq = "<%s>::%s" % (impl.header, it.name)
+        if it.kind == "trait" and it.name in self.cfg.get("keep_traits", {}).get(rel, []):
+            self._trait(rel, src, it)
+            return
         if it.kind in ("use", "mod", "type", "macro_rules", "extern", "trait", "static"):
             return
         if it.kind == "macro_call":
             raise Undecided("%s: unexpanded macro item %s" % (rel, it.name))
         if it.kind == "impl":
+            if it.trait_impl and it.header in self.cfg.get("keep_trait_impls", {}).get(rel, []):
+                # a kept trait impl: all its methods are rendered in every cone (a trait impl cannot be partial)
+                self.order.append(("impl_open", "impl %s {" % it.header, "impl %s::%s" % (rel, it.header)))
+                ic = self.contracts.get("impl %s::%s" % (rel, it.header))
+                if ic is not None:
+                    self.used_contracts.add(ic.key)
+                    self.order.append(("const", ins(_indent(ic.opens, "    ").rstrip("\n"))))
+                for sub in it.items:
+                    self._item(rel, src, sub, it, drop)
+                self.order.append(("impl_close", "}"))
+                return
             if it.trait_impl:
                 self.dropped.append("%s::impl %s" % (rel, it.header))
                 return
@@ -628,14 +872,28 @@ class Extraction:
                 a2 = re.sub(r"\bDebug\s*,\s*", "", a)
                 if a2 != a:
                     c["R1.derive_debug"] = c.get("R1.derive_debug", 0) + 1
+                for dv in self.cfg.get("drop_derives", {}).get(it.name, []):
+                    # derives whose generated impl needs a trait impl that the extraction drops (e.g. PartialEq over DateTime)
+                    a3 = re.sub(r",\s*%s\b|\b%s\s*,\s*" % (dv, dv), "", a2, count=1) if a2.startswith("#[derive") else a2
+                    if a3 == a2 and re.match(r"#\[derive\(\s*%s\s*\)\]$" % dv, a2):
+                        a3 = ""
+                    if a3 != a2:
+                        c["R1.derive_other"] = c.get("R1.derive_other", 0) + 1
+                    a2 = a3
+                if not a2:
+                    continue
                 pre += a2 + "\n"
+            if it.vis and (rel in self.cfg.get("keep_pub_types_in", []) or it.name in self.cfg.get("keep_pub_types", [])):
+                # the type stays public: it occurs in the contract of a public trait method (From::from)
+                pre += "pub "
+                c["R1.vis"] -= 1
             self.order.append(("type", pre + text))
             return
         if it.kind == "const":
             self.order.append(("const", ("    " if impl else "") + text))
             return
         if it.kind == "fn":
-            key = "%s::%s" % (rel, qual)
+            key = "%s::%s" % (rel, keyq)
             if it.body_open < 0:
                 return
             sha = hashlib.sha256(text.encode()).hexdigest()
@@ -643,12 +901,30 @@ class Extraction:
             t = rewrite_R4(t, c)
             t = rewrite_R3(t, c)
             t = rewrite_R3c(t, c)
+            lifted = []
+            try:
+                if key in self.cfg.get("lift_closures", {}):
+                    t, lifted = rewrite_R8(t, key, self.cfg["lift_closures"][key], c)
+                if rel in self.cfg.get("iterator_rules", []):
+                    t = rewrite_R9(t, key, c)
+                    t = rewrite_R11(t, key, c)
+                if key in self.cfg.get("hoist_call_args", {}):
+                    t = rewrite_R12(t, key, self.cfg["hoist_call_args"][key], c)
+                if key in self.cfg.get("abstract_exprs", {}):
+                    t = rewrite_R10(t, key, self.cfg["abstract_exprs"][key], c)
+                pre_broken = None
+            except Undecided as e:
+                # lost anchor of a rewrite rule: only this function (and the cones containing it) become undecided
+                pre_broken = str(e)
+                t, lifted = rewrite_R3c(rewrite_R3(rewrite_R4(strip_inner_use(text, {}), {}), {}), {}), []
+                for sp in self.cfg.get("lift_closures", {}).get(key, []):
+                    self.used_contracts.add("%s::%s" % (key, sp["name"]))
             con = self.contracts.get(key)
             if con is not None:
                 self.used_contracts.add(key)
-            broken = None
+            broken = pre_broken
             try:
-                out = splice(t, con, key, c)
+                out = splice(t, con, key, c) if broken is None else t
             except Undecided as e:
                 # a lost anchor concerns only the checks whose cone contains this function
                 broken = str(e)
@@ -660,10 +936,59 @@ class Extraction:
             if want != got:
                 raise Undecided("%s: fidelity self-check failed" % key)
             self.functions[key] = dict(file=rel, qual=qual, name=it.name, impl=impl.self_type if impl else None, sha256=sha,
-                                       contract=con, src_text=text, broken=broken)
+                                       contract=con, src_text=text, broken=broken, always=bool(impl is not None and impl.trait_impl))
             self.order.append(("fn", key, ("    " if impl else "") + out))
+            for lf in lifted:
+                # R8: the lifted closure is a function of its own (contract key <fn key>::<closure name>)
+                lkey = "%s::%s" % (key, lf["name"])
+                lcon = self.contracts.get(lkey)
+                if lcon is not None:
+                    self.used_contracts.add(lkey)
+                lbroken = None
+                try:
+                    lout = splice(lf["text"], lcon, lkey, c)
+                except Undecided as e:
+                    lbroken, lout = str(e), lf["text"]
+                got = rl.sig_texts(restore_rewrites(strip_inserts(lout)))
+                if got != rl.sig_texts(lf["closure_body"]):
+                    raise Undecided("%s: fidelity self-check failed" % lkey)
+                self.functions[lkey] = dict(file=rel, qual=lf["fname"], name=lf["fname"], impl=None, sha256=hashlib.sha256(lf["closure_body"].encode()).hexdigest(),
+                                            contract=lcon, src_text=lf["closure_body"], broken=lbroken, always=False)
+                if impl is not None:
+                    raise Undecided("%s: R8 inside an impl block is not handled" % key)
+                self.order.append(("fn", lkey, lout))
             return
         raise Undecided("%s: unhandled item kind %s" % (rel, it.kind))
+
+    def _trait(self, rel, src, it):
+        """a kept trait: method declarations token for token, ghost items and method contracts from the overlay"""
+        tc = self.contracts.get("trait %s::%s" % (rel, it.name))
+        out = "trait %s {\n" % it.name
+        if tc is not None:
+            self.used_contracts.add(tc.key)
+            out += ins(_indent(tc.opens, "    "))
+        for sub in rl.parse_items(src, it.body_open + 1, it.body_close):
+            if sub.kind != "fn" or sub.body_open >= 0:
+                raise Undecided("%s: trait %s has an item the extraction does not handle" % (rel, it.name))
+            decl = src[sub.kw_start:sub.end].rstrip()
+            if not decl.endswith(";"):
+                raise Undecided("%s: trait %s: unexpected method declaration" % (rel, it.name))
+            mc = self.contracts.get("%s::%s::%s" % (rel, it.name, sub.name))
+            spec = ""
+            if mc is not None:
+                self.used_contracts.add(mc.key)
+                if mc.requires.strip():
+                    spec += "\n        requires\n" + _indent(mc.requires, "            ").rstrip("\n")
+                if mc.ensures.strip():
+                    spec += "\n        ensures\n" + _indent(mc.ensures, "            ").rstrip("\n")
+            out += "    " + decl[:-1] + (ins(spec) if spec else "") + ";\n"
+            self.trait_methods.setdefault(it.name, []).append(sub.name)
+        out += "}"
+        back = rl.sig_texts(strip_inserts(out))
+        want = rl.sig_texts(re.sub(r"(?m)^\s*///[^\n]*\n", "", src[it.kw_start:it.end]))
+        if back != want:
+            raise Undecided("%s: fidelity self-check failed for trait %s" % (rel, it.name))
+        self.order.append(("type", out))
 
     def _strip_field_vis_and_docs(self, text, rel, name):
         # R1 on fields / variants: drop doc comments, pub on fields, cfg-gated variants listed in config
@@ -696,7 +1021,7 @@ class Extraction:
         def add(text, name=None, kind=None):
             pieces.append((text, name, kind))
 
-        add("#![allow(unused, non_snake_case, non_camel_case_types)]\nuse vstd::prelude::*;\nuse core::cmp::Ordering;\nverus! {\n")
+        add("#![allow(unused, non_snake_case, non_camel_case_types, private_interfaces)]\nuse vstd::prelude::*;\nuse core::cmp::Ordering;\nverus! {\n")
         for (n, k, t, f) in (lib_items or []):
             if canary and "by (compute" in t:
                 # requires-free computation lemmas: nothing to probe, and re-running the computation would double the cost
@@ -718,8 +1043,11 @@ class Extraction:
             if ch[0] == "fn":
                 key, text = ch[1], ch[2]
                 if keep_fns is not None and key not in keep_fns:
-                    continue
-                if key in delegated:
+                    if not self.functions[key].get("always"):
+                        continue
+                    # method of a kept trait impl outside this cone: signature and contract only
+                    text = _delegate_body(text, self.functions[key])
+                elif key in delegated:
                     # modular verification: this body is out of the property's scope; its contract is assumed here
                     # and discharged by the property that owns it (named in properties.json)
                     text = _delegate_body(text, self.functions[key])
@@ -949,6 +1277,9 @@ def cone(ex, lib, root_fns, root_lemmas=(), stop_at=()):
         else:
             text, own = w[1], w[2]
         for k in _fn_mentions(text, own, fn_index):
+            if w[0] != "fn" and ex.functions[k].get("always"):
+                # `s.push(x)` in library text is Seq::push, not a method of a kept trait impl
+                continue
             if k not in keep_fn:
                 work.append(("fn", k))
         for name in _idents(text):
